@@ -47,14 +47,35 @@ def parse_class(path, fmt):
     return None
 
 
+_SPELLING = [0]
+
+
 def start(main):
-    """safe_load_sensors of a fresh Persistence over an empty mapping (what start-up does)."""
+    """safe_load_sensors of a fresh Persistence over an empty mapping (what start-up does).  The file is
+    named the three ways a user names it — absolute path, path relative to the working directory (the
+    library's default "mysensors.pickle" is one), path through a symbolic link to the directory — in
+    rotation: the result must not depend on the spelling."""
     sensors = {}
-    pers = pu.persistence_for(sensors, main)
+    _SPELLING[0] += 1
+    how = _SPELLING[0] % 3
+    cwd = os.getcwd()
+    named = main
     try:
-        pers.safe_load_sensors()
-    except BaseException as exc:  # noqa: BLE001
-        return type(exc).__name__, sensors
+        if how == 1:
+            os.chdir(os.path.dirname(main))
+            named = os.path.basename(main)
+        elif how == 2:
+            link = os.path.dirname(main) + "-link"
+            if not os.path.islink(link):
+                os.symlink(os.path.dirname(main), link)
+            named = os.path.join(link, os.path.basename(main))
+        pers = pu.persistence_for(sensors, named)
+        try:
+            pers.safe_load_sensors()
+        except BaseException as exc:  # noqa: BLE001
+            return type(exc).__name__, sensors
+    finally:
+        os.chdir(cwd)
     return None, sensors
 
 
